@@ -382,6 +382,14 @@ type Pool struct {
 	New   func() any
 	id    int
 	items []poolItem
+	seen  bool
+}
+
+func (p *Pool) register(s *Sim) {
+	if !p.seen {
+		p.seen = true
+		s.pools = append(s.pools, p)
+	}
 }
 
 type poolItem struct {
@@ -403,6 +411,14 @@ func (p *Pool) Get() any {
 		return nil
 	}
 	s.objID(&p.id)
+	p.register(s)
+	if s.poolFresh {
+		// reference computations: as if the pool had dropped everything
+		if p.New != nil {
+			return p.New()
+		}
+		return nil
+	}
 	s.yield(&pending{kind: "pool.get", obj: p.id})
 	n := len(p.items)
 	if n > 4 {
@@ -441,10 +457,11 @@ func (p *Pool) Put(x any) {
 		p.items = append(p.items, poolItem{v: x})
 		return
 	}
-	if s.killing {
+	if s.killing || s.poolFresh {
 		return
 	}
 	s.objID(&p.id)
+	p.register(s)
 	s.yield(&pending{kind: "pool.put", obj: p.id})
 	it := poolItem{v: x}
 	if !s.cfg.NoRace {
@@ -565,4 +582,13 @@ func (m *Map) Clear() {
 	defer m.mu.Unlock()
 	m.m = nil
 	m.keys = nil
+}
+
+// SetPoolFresh makes every Pool.Get call New and every Put a no-op (no
+// schedule point, no choice): worlds use it while computing an isolated
+// reference result inside a run.
+func SetPoolFresh(on bool) {
+	if cur != nil {
+		cur.poolFresh = on
+	}
 }
